@@ -128,6 +128,20 @@ Proof.
   destruct (bytes_eqb k k'); cbn; intuition.
 Qed.
 
+Lemma lru_remove_le : forall V (k : bytes) (c : cache V), (length (lru_remove k c) <= length c)%nat.
+Proof.
+  induction c as [|[a b] t IH]; cbn; [lia|]. destruct (bytes_eqb k a); cbn; lia.
+Qed.
+
+Lemma lru_remove_found : forall V (k : bytes) (c : cache V) v,
+  lru_find k c = Some v -> (S (length (lru_remove k c)) <= length c)%nat.
+Proof.
+  induction c as [|[a b] t IH]; intros v; cbn; [discriminate|].
+  destruct (bytes_eqb k a).
+  - intros _. pose proof (lru_remove_le V k t). lia.
+  - intros F. specialize (IH v F). cbn. lia.
+Qed.
+
 Lemma firstn_in : forall A n (l : list A) x, In x (firstn n l) -> In x l.
 Proof. induction n; intros [|a l] x; cbn; intuition. Qed.
 
@@ -180,9 +194,9 @@ Section EngineProofs.
     cache_ok c' /\ (g', o) = exec_fresh g r.
   Proof.
     intros cap c g r OK. unfold QueryCache.exec_cached, QueryCache.exec_fresh.
-    destruct (cached_parse_ok cap c (text ast r) OK) as [P OK'].
-    destruct (cached_parse cap c (text ast r)) as [p c']; cbn [fst snd] in *. subst p.
-    destruct (run_parsed ast err store res exec_ro exec_rw res_err (parse (text ast r)) r g) as [g' o].
+    destruct (cached_parse_ok cap c (text r) OK) as [P OK'].
+    destruct (cached_parse cap c (text r)) as [p c']; cbn [fst snd] in *. subst p.
+    destruct (run_parsed ast err store res exec_ro exec_rw res_err (parse (text r)) r g) as [g' o].
     split; [exact OK'|reflexivity].
   Qed.
 
@@ -229,13 +243,7 @@ Section EngineProofs.
   Proof.
     intros cap c s L. unfold QueryCache.cached_parse, lru_get.
     destruct (lru_find (key s) c) as [q|] eqn:F; cbn [snd].
-    - clear - F L. revert q F L. induction c as [|[k' v'] r IH]; intros q F L; [discriminate|].
-      cbn in F |- *. destruct (bytes_eqb (key s) k') eqn:E.
-      + clear IH F. cbn in L.
-        assert (forall (c : cache ast), length (lru_remove (key s) c) <= length c)%nat as R.
-        { induction c as [|[a b] t IHc]; cbn; [lia|]. destruct (bytes_eqb (key s) a); cbn; lia. }
-        specialize (R r). lia.
-      + cbn in L |- *. specialize (IH q F). cbn in IH. lia.
+    - pose proof (lru_remove_found _ _ _ _ F) as R. cbn [length]. lia.
     - destruct (parse s); cbn [snd]; [apply lru_put_len|exact L].
   Qed.
 End EngineProofs.
